@@ -175,6 +175,9 @@ def _run_chunk(job):
     # bound methods and callable instances once more with an instance that is falsy
     out += [run_target(klepto, dict(t, falsy=True), calls) for n, t in enumerate(targets) if t['kind'] != 'func' and n % 2 == 0]
     out += [run_target(klepto, dict(t, hasargs=True), calls) for n, t in enumerate(targets) if t['kind'] == 'callable' and n % 2 == 1]
+    # callable instances that carry the metadata of a function (a class-based decorator that called functools.update_wrapper on
+    # itself): they have a __name__, a __wrapped__, ... like a function, and are still called through __call__
+    out += [run_target(klepto, dict(t, wraps=True), calls) for n, t in enumerate(targets) if t['kind'] == 'callable' and n % 3 == 0]
     return out
 
 
